@@ -12,7 +12,7 @@ PROP = dict(
     # difference there (no spec_fail) is reported as `no-failing-input-found`.
     mismatch_is_violation=False,
     rule="typed program generator (harness/src/progen.rs), tiers F0 (ints, bools, locals, operators, short-circuit, "
-         "if/else, blocks+shadowing, let/var, assignment forms, while/break/continue, println), F1 (+tuples, structs, "
+         "if/else, blocks+shadowing, let/var, assignment forms, while/break/continue, println), F1 (+tuples, structs and variants incl. void components in any position with refutable multi-arm matches over them, "
          "enums, match, arrays with aliasing, for, strings incl. all six comparison operators on designed pairs), F2 (+functions incl. void-typed parameters in any position, recursion, return, option/result, ?/!), "
          "F3 (+lambdas, nested lambdas, captures, reassignment before/after creation); quick: 110+90+90+90 programs "
          "(4-12 statements, node budget 40-88), thorough: 4x2500 (budget up to 200); each compiled and run by the real "
